@@ -730,6 +730,10 @@ pub fn read_tlf(b: &[u8], at: usize) -> Result<Tlf, Reject> {
 struct Rd<'a> {
     b: &'a [u8],
     pos: usize,
+    tlfs: Vec<TlfSpan>,
+    /// (declared length / count, type) of the first TLF that declares more than the input still holds
+    overlong: Option<(u64, u8)>,
+    last_tlf: Option<Tlf>,
 }
 
 type RR<T> = Result<T, Reject>;
@@ -740,12 +744,24 @@ impl<'a> Rd<'a> {
     }
     fn tlf(&mut self) -> RR<Tlf> {
         let t = read_tlf(&self.b[self.pos..], self.pos)?;
+        self.tlfs.push(TlfSpan { pos: self.pos, n: t.nbytes, ctx: "read", ty: t.ty });
         self.pos += t.nbytes;
+        self.last_tlf = Some(t);
+        if t.ty == TY_LIST && t.len > (self.b.len() - self.pos) as u64 && self.overlong.is_none() {
+            self.overlong = Some((t.len, t.ty));
+        }
         Ok(t)
     }
     fn take(&mut self, n: u64) -> RR<&'a [u8]> {
         let rest = self.b.len() - self.pos;
         if n > rest as u64 {
+            if self.overlong.is_none() {
+                if let Some(t) = self.last_tlf {
+                    if t.len == n {
+                        self.overlong = Some((n, t.ty));
+                    }
+                }
+            }
             return self.rej(RejectKind::Eof, "data");
         }
         let s = &self.b[self.pos..self.pos + n as usize];
@@ -912,6 +928,10 @@ impl<'a> Rd<'a> {
 
 #[derive(Debug, Clone, Default)]
 pub struct ReadOut {
+    /// every TLF the reader decoded, in input order
+    pub tlfs: Vec<TlfSpan>,
+    /// first TLF declaring more bytes / elements than the input still holds: (declared, type)
+    pub overlong: Option<(u64, u8)>,
     pub events: Vec<REvent>,
     /// spans of messages whose structure was read up to and including the end marker
     pub msgs: Vec<MsgSpan>,
@@ -923,13 +943,15 @@ pub struct ReadOut {
 /// ignored (used to locate the checksum fields for the fix-up mutator).
 pub fn read_events(bytes: &[u8], check_crc: bool) -> ReadOut {
     let mut out = ReadOut::default();
-    let mut r = Rd { b: bytes, pos: 0 };
+    let mut r = Rd { b: bytes, pos: 0, tlfs: Vec::new(), overlong: None, last_tlf: None };
     while r.pos < bytes.len() {
         if let Err(e) = read_msg(&mut r, check_crc, &mut out) {
             out.reject = Some(e);
             break;
         }
     }
+    out.tlfs = r.tlfs;
+    out.overlong = r.overlong;
     out
 }
 
